@@ -31,6 +31,7 @@ type fuzzSpec struct {
 	Fail      float64  `json:"fail"`     // weight of connection failures
 	MaxCmds   int      `json:"maxCmds"`
 	Fair      bool     `json:"fair"`     // after the random part: heal everything and continue with a fair schedule (C17 b)
+	Partition float64  `json:"partition"` // weight of isolating one node for a while (dials and RPCs to/from it fail, nothing is delivered)
 	Transfer  float64  `json:"transfer"` // weight of leadership-transfer requests (and of their timers)
 	CrashPts  float64  `json:"crashPts"` // weight of arming a crash point inside a later storage-mutating step
 	Name      string   `json:"name"`
@@ -46,7 +47,7 @@ var simCrashPoints = []string{"value.renamed", "value.set", "append.truncated", 
 	"seg.create.opened", "seg.create.truncated", "seg.create.synced", "log.rollover"}
 
 func choiceKey(s simStep) string {
-	return fmt.Sprintf("%s|%d|%d|%d|%d|%d|%d|%d|%d|%s", s.K, s.N, s.From, s.To, s.I, s.J, s.Peer, s.Term, s.Conn, s.Task)
+	return fmt.Sprintf("%s|%d|%d|%d|%d|%d|%d|%d|%d|%s|%v", s.K, s.N, s.From, s.To, s.I, s.J, s.Peer, s.Term, s.Conn, s.Task, s.Fail)
 }
 
 type fuzzChoice struct {
@@ -128,6 +129,15 @@ func (c *simCluster) fuzzChoices(f *fuzzSpec, rng *rand.Rand, cmds *int, cfgReqs
 				if sr == nil {
 					continue
 				}
+				if c.isolated[id] || c.isolated[j] {
+					// partitioned pair: nothing is delivered; dials fail; open connections run into their deadlines
+					if sr.conn == nil {
+						add(3, simStep{K: "replSend", I: id, J: j, Fail: true})
+					} else {
+						add(4, simStep{K: "replFail", I: id, J: j})
+					}
+					continue
+				}
 				if sr.snapBusy != nil {
 					if len(sr.conn.reqs) > 0 {
 						add(10, simStep{K: "appendReq", I: id, J: j})
@@ -206,14 +216,33 @@ func (c *simCluster) fuzzChoices(f *fuzzSpec, rng *rand.Rand, cmds *int, cfgReqs
 		}
 	}
 	for _, rpc := range c.rpcs {
+		cut := c.isolated[rpc.from] || c.isolated[rpc.to]
 		switch rpc.phase {
 		case 0:
-			add(10, simStep{K: rpc.kind + "Req", From: rpc.from, To: rpc.to, Term: rpc.term})
+			if cut {
+				add(6, simStep{K: rpc.kind + "Req", From: rpc.from, To: rpc.to, Term: rpc.term, Fail: true})
+			} else {
+				add(10, simStep{K: rpc.kind + "Req", From: rpc.from, To: rpc.to, Term: rpc.term})
+			}
 		case 1:
-			add(10, simStep{K: rpc.kind + "Resp", From: rpc.to, To: rpc.from, Term: rpc.term})
+			if !cut {
+				add(10, simStep{K: rpc.kind + "Resp", From: rpc.to, To: rpc.from, Term: rpc.term})
+			}
+		}
+	}
+	if f.Partition > 0 {
+		if len(c.isolated) == 0 {
+			for _, id := range c.ids {
+				add(f.Partition/float64(len(c.ids)), simStep{K: "_isolate", N: id})
+			}
+		} else {
+			add(f.Partition*1.5, simStep{K: "_rejoin"})
 		}
 	}
 	for _, oc := range c.orphans {
+		if c.isolated[oc.from] || c.isolated[oc.to] {
+			continue
+		}
 		if len(oc.reqs) > 0 {
 			add(1.5, simStep{K: "appendReq", I: oc.from, J: oc.to, Conn: oc.id})
 		}
@@ -315,6 +344,14 @@ func runFuzz(f fuzzSpec, run int, out *bufio.Writer) (err error) {
 				break
 			}
 		}
+		if st.K == "_isolate" {
+			c.isolated = map[uint64]bool{st.N: true}
+			continue
+		}
+		if st.K == "_rejoin" {
+			c.isolated = map[uint64]bool{}
+			continue
+		}
 		if st.K == "client" {
 			cmds++
 		}
@@ -324,6 +361,7 @@ func runFuzz(f fuzzSpec, run int, out *bufio.Writer) (err error) {
 		ev := c.doStep(st)
 		c.record(st, ev)
 	}
+	c.isolated = map[uint64]bool{}
 	if f.Fair {
 		c.fairContinue(&cmds)
 	}
